@@ -1,2 +1,76 @@
-(* C10 — placeholder: theorems are added as the proofs land. *)
-From EDP Require Import Base.Bytes Term.Term Codec.Decode Codec.Encode.
+(* C10 — identifiers received from a peer are re-emitted byte-for-byte; identity is by logical fields. *)
+From EDP Require Import Base.Bytes Term.Term Gen.Tags Gen.DecoderArms Gen.Ranks.
+From EDP Require Import Codec.Encode Codec.Decode Codec.Norm Codec.RoundTrip Codec.RoundTrip2 Order.Cmp Order.CmpFacts Order.HashStream.
+
+(* 1. capture: a LOCAL_EXT wrapper (any 8-byte hash h, any nested encoding nb the decoder accepts — modern or
+      legacy) around an identifier is decoded to that identifier carrying exactly the bytes h ++ nb ... *)
+Theorem C10_local_captured : forall cfg, d_arms cfg = owned_arms -> forall f h nb rest t,
+  length h = 8%nat -> parse cfg f (nb ++ rest) = POk t rest ->
+  parse cfg (S f) (tag_local_ext :: h ++ nb ++ rest) =
+    match t with
+    | TPid p => POk (TPid (set_ploc p (Some (h ++ nb)))) rest
+    | TPort n i c _ => POk (TPort n i c (Some (h ++ nb))) rest
+    | TRef n c ids _ => POk (TRef n c ids (Some (h ++ nb))) rest
+    | _ => POk t rest
+    end.
+Proof. intros cfg Harms f h nb rest t. exact (p_local cfg Harms f h nb rest t). Qed.
+
+(* ... and the encoder replays those bytes verbatim behind the LOCAL_EXT tag *)
+Theorem C10_local_replayed_pid : forall p raw, enc (TPid (set_ploc p (Some raw))) = EOk (tag_local_ext :: raw).
+Proof. reflexivity. Qed.
+Theorem C10_local_replayed_port : forall n i c raw, enc (TPort n i c (Some raw)) = EOk (tag_local_ext :: raw).
+Proof. reflexivity. Qed.
+Theorem C10_local_replayed_ref : forall n c ids raw, enc (TRef n c ids (Some raw)) = EOk (tag_local_ext :: raw).
+Proof. reflexivity. Qed.
+
+(* 2. wherever they are nested (tuples, lists, tails, map keys/values, fun environments): the round trip of the whole
+      term gives back a term that re-encodes to the same bytes (C01), and normalisation never touches an identifier *)
+Theorem C10_context_bytes_preserved : forall cfg, d_arms cfg = owned_arms ->
+  forall t, wf t = true -> rt_ok (d_kcmp cfg) (d_kinsert cfg) t ->
+  exists bs, encode t = EOk bs /\ decode cfg bs = DOk (norm t) /\ encode (norm t) = EOk bs.
+Proof.
+  intros cfg Harms t Hwf Hok.
+  destruct (roundtrip cfg Harms (d_kcmp cfg) (d_kinsert cfg) eq_refl eq_refl t Hwf Hok) as (b & Eb & Lb & Pb).
+  exists (tag_version :: b). unfold encode. rewrite enc_norm, Eb. split; [reflexivity|]. split; [|reflexivity].
+  unfold decode. rewrite N.eqb_refl.
+  specialize (Pb (length b + 2 + d_extra_fuel cfg)%nat [] ltac:(lia)). rewrite app_nil_r in Pb. now rewrite Pb.
+Qed.
+
+Theorem C10_identifiers_not_normalised : forall p n i c l ids,
+  norm (TPid p) = TPid p /\ norm (TPort n i c l) = TPort n i c l /\ norm (TRef n c ids l) = TRef n c ids l.
+Proof. intros; repeat split. Qed.
+
+(* 3. identity by logical fields only: whatever the two node-local byte strings are *)
+Theorem C10_logical_eq_pid : forall p l1 l2,
+  teqb (TPid (set_ploc p l1)) (TPid (set_ploc p l2)) = true
+  /\ cmp_owned (TPid (set_ploc p l1)) (TPid (set_ploc p l2)) = Eq
+  /\ cmp_borrowed (TPid (set_ploc p l1)) (TPid (set_ploc p l2)) = Eq
+  /\ hstream (TPid (set_ploc p l1)) = hstream (TPid (set_ploc p l2)).
+Proof.
+  intros p l1 l2. split; [apply pid_eqb_loc|].
+  split; [unfold cmp_owned; cbn [cmp rank_owned]; rewrite N.compare_refl, (cmp_pid_loc p p l1 l2); apply cmp_pid_refl|].
+  split; [unfold cmp_borrowed; cbn [cmp rank_borrowed]; rewrite N.compare_refl, (cmp_pid_loc p p l1 l2); apply cmp_pid_refl|reflexivity].
+Qed.
+
+Theorem C10_logical_eq_port : forall n i c l1 l2,
+  teqb (TPort n i c l1) (TPort n i c l2) = true /\ cmp_owned (TPort n i c l1) (TPort n i c l2) = Eq
+  /\ hstream (TPort n i c l1) = hstream (TPort n i c l2).
+Proof.
+  intros. split; [cbn [teqb]; now rewrite eq_bytes_refl, !N.eqb_refl|].
+  split; [unfold cmp_owned; cbn [cmp rank_owned]; now rewrite !N.compare_refl, cmp_bytes_refl|reflexivity].
+Qed.
+
+Theorem C10_logical_eq_ref : forall n c ids l1 l2,
+  teqb (TRef n c ids l1) (TRef n c ids l2) = true /\ cmp_owned (TRef n c ids l1) (TRef n c ids l2) = Eq
+  /\ hstream (TRef n c ids l1) = hstream (TRef n c ids l2).
+Proof.
+  intros. split; [cbn [teqb]; now rewrite !eq_bytes_refl, N.eqb_refl|].
+  split; [unfold cmp_owned; cbn [cmp rank_owned]; now rewrite !N.compare_refl, !cmp_bytes_refl|reflexivity].
+Qed.
+
+(* comparison against any other term never depends on the node-local bytes *)
+Theorem C10_cmp_ignores_loc : forall p l1 l2 q,
+  cmp_owned (TPid (set_ploc p l1)) q = cmp_owned (TPid (set_ploc p l2)) q.
+Proof. intros p l1 l2 q. destruct q; reflexivity. Qed.
+
+Check C10_local_captured.
